@@ -416,3 +416,100 @@ Proof.
   rewrite conv_name, conv_ver by (destruct v as [[c x]|]; [exact Hv|exact I]).
   rewrite conv_qual, conv_archs, (conv_profs _ _ _ _ ps Hp). reflexivity.
 Qed.
+
+(* ================================================================== F. entries and fields *)
+Lemma res_all_map {A B} (f : A -> res B) (g : A -> B) l : (forall x, In x l -> f x = Ok (g x)) ->
+  RelAcc.res_all f l = Ok (map g l).
+Proof.
+  induction l as [|x r IH]; intros H; [reflexivity|]. cbn [RelAcc.res_all map].
+  rewrite (H x (or_introl eq_refl)), IH by (intros y Hy; apply H; right; exact Hy). reflexivity.
+Qed.
+
+Theorem entry_to_lossless_tree e : entry_to_lossless e = Ok (entry_from_relations fixed (map conv_tree e)).
+Proof.
+  unfold entry_to_lossless. rewrite (res_all_map to_lossless conv_tree) by (intros; apply to_lossless_tree). reflexivity.
+Qed.
+Definition entry_tree (e : list (relation dversion)) : rtree := entry_from_relations fixed (map conv_tree e).
+Definition field_tree (rs : list (list (relation dversion))) : rtree := relations_from_entries (map entry_tree rs).
+Theorem field_to_lossless_tree rs : field_to_lossless rs = Ok (field_tree rs).
+Proof.
+  unfold field_to_lossless. rewrite (res_all_map entry_to_lossless entry_tree) by (intros; apply entry_to_lossless_tree).
+  reflexivity.
+Qed.
+
+(* texts *)
+Lemma texts_join_relations ts : forall i, texts (join_relations fixed (S i) ts) = flat_map (fun t => [32; 124; 32]%N ++ text t) ts.
+Proof.
+  induction ts as [|t r IH]; intros i; [reflexivity|]. cbn [join_relations flat_map].
+  change (fx_pipe fixed) with true. cbv iota. rewrite texts_app, (texts_cons t), IH. reflexivity.
+Qed.
+Lemma text_entry_from ts : text (entry_from_relations fixed ts) = join [32; 124; 32]%N (map text ts).
+Proof.
+  unfold entry_from_relations. rewrite text_node. destruct ts as [|t r]; [reflexivity|].
+  cbn [join_relations app map]. rewrite texts_cons, texts_join_relations, join_flat, flat_map_map. reflexivity.
+Qed.
+Lemma texts_join_entries es : forall i, texts (join_entries (S i) es) = flat_map (fun t => [44; 32]%N ++ text t) es.
+Proof.
+  induction es as [|t r IH]; intros i; [reflexivity|]. cbn [join_entries flat_map].
+  rewrite texts_app, (texts_cons t), IH. reflexivity.
+Qed.
+Lemma text_relations_from es : text (relations_from_entries es) = join [44; 32]%N (map text es).
+Proof.
+  unfold relations_from_entries. rewrite text_node. destruct es as [|t r]; [reflexivity|].
+  cbn [join_entries app map]. rewrite texts_cons, texts_join_entries, join_flat, flat_map_map. reflexivity.
+Qed.
+
+Theorem entry_tree_text e : text (entry_tree e) = print_entry dv_print e.
+Proof.
+  unfold entry_tree, print_entry. rewrite text_entry_from, map_map. f_equal. apply map_ext. apply conv_tree_text.
+Qed.
+Theorem field_tree_text rs : text (field_tree rs) = print_relations dv_print rs.
+Proof.
+  unfold field_tree, print_relations. rewrite text_relations_from, map_map. f_equal. apply map_ext. apply entry_tree_text.
+Qed.
+
+(* the relation nodes of a converted entry, the entry nodes of a converted field *)
+Lemma rnodes_join_relations ts : (forall t, In t ts -> exists cs, t = Node RELATION cs) ->
+  forall i, filter (fun e => is_node e && rkind_eqb (ekind e) RELATION) (join_relations fixed i ts) = ts.
+Proof.
+  induction ts as [|t r IH]; intros H i; [reflexivity|]. cbn [join_relations]. change (fx_pipe fixed) with true. cbv iota.
+  rewrite filter_app. assert (E : filter (fun e => is_node e && rkind_eqb (ekind e) RELATION)
+                                         match i with 0 => [] | S _ => [t_space; Tok PIPE [124%N]; t_space] end = [])
+    by (destruct i; reflexivity).
+  rewrite E. cbn [app filter]. destruct (H t (or_introl eq_refl)) as (cs & ->). cbn [is_node ekind rkind_eqb rkind_code N.eqb Pos.eqb andb].
+  rewrite IH by (intros y Hy; apply H; right; exact Hy). reflexivity.
+Qed.
+Lemma rnodes_join_entries es : (forall t, In t es -> exists cs, t = Node ENTRY cs) ->
+  forall i, filter (fun e => is_node e && rkind_eqb (ekind e) ENTRY) (join_entries i es) = es.
+Proof.
+  induction es as [|t r IH]; intros H i; [reflexivity|]. cbn [join_entries].
+  rewrite filter_app. assert (E : filter (fun e => is_node e && rkind_eqb (ekind e) ENTRY)
+                                         match i with 0 => [] | S _ => [t_comma; t_space] end = [])
+    by (destruct i; reflexivity).
+  rewrite E. cbn [app filter]. destruct (H t (or_introl eq_refl)) as (cs & ->). cbn [is_node ekind rkind_eqb rkind_code N.eqb Pos.eqb andb].
+  rewrite IH by (intros y Hy; apply H; right; exact Hy). reflexivity.
+Qed.
+
+Lemma res_all_inv {A B} (f : B -> res A) (g : A -> B) l : (forall x, In x l -> f (g x) = Ok x) ->
+  RelAcc.res_all f (map g l) = Ok l.
+Proof.
+  induction l as [|x r IH]; intros H; [reflexivity|]. cbn [RelAcc.res_all map].
+  rewrite (H x (or_introl eq_refl)), IH by (intros y Hy; apply H; right; exact Hy). reflexivity.
+Qed.
+
+(* clause 2 for entries and fields *)
+Theorem entry_to_lossy_tree e : forallb relation_okb e = true -> entry_to_lossy (entry_tree e) = Ok e.
+Proof.
+  intros H. unfold entry_to_lossy, RelAcc.entry_relations, r_relations, rnodes_of_kind, entry_tree, entry_from_relations.
+  cbn [children]. rewrite rnodes_join_relations.
+  - apply res_all_inv. intros x Hx. apply to_lossy_conv_tree. rewrite forallb_forall in H. apply H, Hx.
+  - intros t Ht. apply in_map_iff in Ht. destruct Ht as (x & <- & _). eexists. reflexivity.
+Qed.
+
+Theorem field_to_lossy_tree rs : forallb (forallb relation_okb) rs = true -> field_to_lossy (field_tree rs) = Ok rs.
+Proof.
+  intros H. unfold field_to_lossy, RelAcc.relations_entries, r_entries, rnodes_of_kind, field_tree, relations_from_entries.
+  cbn [children]. rewrite rnodes_join_entries.
+  - apply res_all_inv. intros x Hx. apply entry_to_lossy_tree. rewrite forallb_forall in H. apply H, Hx.
+  - intros t Ht. apply in_map_iff in Ht. destruct Ht as (x & <- & _). eexists. reflexivity.
+Qed.
